@@ -800,6 +800,10 @@ impl<'tcx> Cx<'tcx> {
         }
         let b = &bytes[off as usize..(off + size) as usize];
         match ty.kind() {
+            // pattern types (`u32 is 0..=999_999_999`, used by core::time::Duration's nanoseconds): the value is a value of the base type
+            ty::Pat(inner, _) => {
+                return self.read_typed(alloc_id, off, *inner, depth);
+            }
             ty::Uint(_) | ty::Char => {
                 let v = Self::le(b);
                 if v <= i128::MAX as u128 { o.set("int", J::n(v as i128)); } else { o.set("uint_hex", J::s(&format!("{:x}", v))); }
